@@ -51,13 +51,14 @@ Record wcase := {
   w_prefix : list ev;     (* before the call: data already buffered, SetReadDeadline ... *)
   w_min : nat;            (* readMore's minSize *)
   w_helpers : list ev;    (* the releasing event, as the steps of the thread that performs it *)
-  w_obs : Z }.            (* observed error class *)
+  w_obs : Z }.            (* observed error class; 8 = the call did not return within the bound *)
 
 (* 0 = fine; 1 = observed class impossible in the model; 2 = the model can block for ever; 3 = fuel *)
 Definition check_case (c : wcase) : Z :=
   let s0 := step (run (w_prefix c) init) (RCall (w_min c)) in
   let outs := explore 40 s0 (w_helpers c) in
   if zmem 6 outs then 3
+  else if w_obs c =? 8 then (if zmem 7 outs then 0 else 1)   (* observed: did not return; the model must be able to block *)
   else if zmem 7 outs then 2
   else if zmem (w_obs c) outs then 0 else 1.
 
@@ -79,4 +80,6 @@ Definition selftest : list (nat * Z) :=
                {| w_prefix := []; w_min := 1; w_helpers := [LLoad; LCas; LClean; LNotify]; w_obs := 3 |};
                {| w_prefix := []; w_min := 1; w_helpers := [LLoad; LCas; LClean; LNotify]; w_obs := 2 |};
                {| w_prefix := []; w_min := 1; w_helpers := [PClose1; PClose2]; w_obs := 2 |};
-               {| w_prefix := []; w_min := 1; w_helpers := [SClose]; w_obs := 3 |} ].
+               {| w_prefix := []; w_min := 1; w_helpers := [SClose]; w_obs := 3 |};
+               {| w_prefix := [EAdd 4; EFin]; w_min := 8; w_helpers := [LDefer1; LDefer2; SClose; LLoad; LCas; LClean; LNotify]; w_obs := 2 |};
+               {| w_prefix := [EAdd 4; EFin]; w_min := 8; w_helpers := [LDefer1; LDefer2]; w_obs := 2 |} ].
